@@ -12,7 +12,7 @@ import threading
 import time
 
 from vf.runner import Violation, HarnessError, run_hypothesis
-from vf.firmware import Firmware, patched_serial, TcpFront
+from vf.firmware import Firmware, patched_serial, TcpFront, wait_handshake_drained
 
 ID = "C16"
 LEVEL = "fault_enumeration"
@@ -147,16 +147,7 @@ def run_case(case, cl=None):
                                     f"cut into several TCP packets, {case['frag']}): {done[1]!r}; {desc}")
                 if done[0] == "exc":
                     raise HarnessError(f"connect() failed against the simulator: {done[1]!r}")
-                t0 = time.time()
-                quiet = None
-                while time.time() - t0 < 5:
-                    if fw.pending() == 0:
-                        quiet = quiet or time.time()
-                        if time.time() - quiet > 0.06:
-                            break
-                    else:
-                        quiet = None
-                    time.sleep(0.004)
+                wait_handshake_drained(fw)
             pending_alarm = None
             if case.get("second_writer") and case["transport"] == "serial" and case["drain"]:
                 # another writer object in the same process, talking to its own
@@ -188,6 +179,8 @@ def run_case(case, cl=None):
                     # the session is closed (waiting or not) and the SAME writer
                     # object is connected again: later statements are delivered
                     # and acknowledged as before
+                    with fw.lock:
+                        m110_before = sum(1 for l in fw.rx if "M110" in l)
                     r = run_with_timeout(lambda: w.disconnect(case["restart"]["wait"]), 6.0)
                     if r[0] == "hang":
                         raise Violation(f"disconnect({case['restart']['wait']}) did not return; {desc}")
@@ -201,15 +194,7 @@ def run_case(case, cl=None):
                     if r[0] != "ok":
                         raise Violation(f"connect() after disconnect({case['restart']['wait']}) on "
                                         f"the same writer: {r!r}; {desc}")
-                    t0, quiet = time.time(), None
-                    while time.time() - t0 < 5:
-                        if fw.pending() == 0:
-                            quiet = quiet or time.time()
-                            if time.time() - quiet > 0.06:
-                                break
-                        else:
-                            quiet = None
-                        time.sleep(0.004)
+                    wait_handshake_drained(fw, m110_before)
                     cl.add("writer_reconnected_after_disconnect_" +
                            ("wait" if case["restart"]["wait"] else "nowait"))
                 lost_before = fw.lost
